@@ -178,7 +178,15 @@ def gen_content(st, case):
     redact = []
     if rp.random() < 0.5:
         redact = [rp.choice(["x", "9", "y", "ab", "0", "~1", "(", "error"])]     # a plain exclusion pattern for the cleaner path
-    return {"lines": lines, "trailing_newline": rp.random() < 0.85, "redact": redact}
+    conc = None
+    if rp.random() < 0.3:
+        # a second caller of the SAME Cleaner at the same time, with an allow-list of its own (what collect() does with
+        # its thread pool): other filters, small budgets
+        other = dict((u, rp.choice([1, 2, 10000])) for u in rp.sample(used, min(len(used), rp.randint(1, 2))))
+        conc = {"seed": rp.getrandbits(32), "allowlist": other, "rotate": rp.randrange(max(1, n)),
+                "policy": ({"kind": "walk", "p": rp.choice([0.05, 0.1, 0.3])} if rp.random() < 0.7 else
+                           {"kind": "pct", "depth": rp.choice([1, 2, 3]), "horizon": rp.choice([50, 200, 600])})}
+    return {"lines": lines, "trailing_newline": rp.random() < 0.85, "redact": redact, "concurrent": conc}
 
 
 # ------------------------------------------------------------------------------------------------
@@ -554,6 +562,9 @@ def run_content(case, world, viols, stats):
             if dict(real_budgets) != dict(fresh):
                 viols.append(V("C07.content", "cleaner-allowlist:budgets-written-back", "clean_content modified the caller's allow-list"))
             stats["probes"]["path_cleaner_allowlist"] = stats["probes"].get("path_cleaner_allowlist", 0) + 1
+            conc = content.get("concurrent")
+            if conc:
+                run_concurrent_allowlist(conc, orig, redact, real_budgets, viols, stats)
             # the static helper on its own
             out = AllowFilter.filter_content(list(orig), dict(real_budgets))
             check_laws("filter_content", orig, out, real_budgets, viols, respects_budget=True)
@@ -567,6 +578,53 @@ def run_content(case, world, viols, stats):
             stats["probes"]["content_runs_with_small_budget"] = stats["probes"].get("content_runs_with_small_budget", 0) + 1
     finally:
         shutil.rmtree(root, ignore_errors=True)
+
+
+_CLEANER_FILES = []
+
+
+def run_concurrent_allowlist(conc, orig, redact, real_budgets, viols, stats):
+    """Two callers of ONE Cleaner at the same time, each with its own allow-list; every result must obey the laws for
+    its own lines and budgets (and, the cleaner being stateless without obfuscation, equal the result of a lone call)."""
+    import random
+    from simkit.simpool import SimPool
+    if not _CLEANER_FILES:
+        import insights.cleaner as c0
+        import insights.cleaner.filters as c1
+        import insights.cleaner.pattern as c2
+        _CLEANER_FILES.extend(m.__file__ for m in (c0, c1, c2))
+    rot = conc["rotate"] % max(1, len(orig))
+    jobs = [(list(orig), dict(real_budgets)), (list(orig[rot:] + orig[:rot]), dict(conc["allowlist"]))]
+    noobf = ["password", "keyword", "hostname", "ip", "ipv6", "mac"]
+    rm = {"patterns": list(redact)} if redact else {}
+    cl = Cleaner(None, rm, fqdn="host.example.com")
+    pool = SimPool(random.Random(conc["seed"]), max_workers=None, policy=conc["policy"], traced_files=tuple(_CLEANER_FILES), max_steps=60000)
+    outs = []
+    try:
+        futs = [pool.submit(cl.clean_content, list(ln), no_obfuscate=noobf, allowlist=dict(al)) for ln, al in jobs]
+        for f in futs:
+            try:
+                outs.append(f.result())
+            except HarnessError:
+                raise
+            except Exception as e:
+                outs.append(e)
+    finally:
+        pool.shutdown()
+    stats["probes"]["concurrent_allowlist_runs"] = stats["probes"].get("concurrent_allowlist_runs", 0) + 1
+    stats["probes"]["concurrent_allowlist_switches"] = stats["probes"].get("concurrent_allowlist_switches", 0) + len(pool.switches)
+    for (ln, al), out in zip(jobs, outs):
+        if isinstance(out, Exception):
+            viols.append(V("C07.content", "cleaner-allowlist:concurrent:raised", "clean_content raised %r under a concurrent caller" % (out,)))
+            continue
+        surv = [l for l in ln if not (l and any(p in l for p in redact))]
+        n0 = len(viols)
+        check_laws("cleaner-allowlist:concurrent", surv, out, al, viols, respects_budget=True)
+        if len(viols) == n0:
+            ref = Cleaner(None, rm, fqdn="host.example.com").clean_content(list(ln), no_obfuscate=noobf, allowlist=dict(al))
+            if ref != out:
+                viols.append(V("C07.content", "cleaner-allowlist:concurrent:differs-from-lone-call",
+                               "allow-list %r: lone call %r, with a concurrent caller %r" % (al, ref[:5], out[:5])))
 
 
 def run_case(case):
